@@ -300,11 +300,12 @@ _LIFE_Q = [("TableLife.tla", "TL_fixed_q.cfg", 900), ("TableLife.tla", "TL_live.
 _LIFE_T = [("TableLife.tla", "TL_fixed.cfg", 3000), ("TableLife.tla", "TL_live.cfg", 600)]
 _SM_Q = [("SeatManagerMC.tla", "SM_mc3.cfg", 600), ("SeatManagerMC.tla", "SM_mc4.cfg", 900)]
 _SM_T = _SM_Q + [("SeatManagerMC.tla", "SM_mc4sd.cfg", 600), ("SeatManagerMC.tla", "SM_mc5.cfg", 3000)]
+_WRAP = [("HandWrapper.tla", c, 600) for c in ("HW_2p.cfg", "HW_2p_fault.cfg", "HW_3p_silent.cfg", "HW_3p_deadbtn.cfg", "HW_3p_fault2.cfg")]
 MODELS = {
  "C01": {"quick": _HAND_Q, "thorough": _HAND_T},
- "C10": {"quick": _HAND_Q, "thorough": _HAND_T},
- "C11": {"quick": _HAND_Q, "thorough": _HAND_T},
- "C13": {"quick": _HAND_Q, "thorough": _HAND_T},
+ "C10": {"quick": _HAND_Q + _WRAP[:1], "thorough": _HAND_T + _WRAP},
+ "C11": {"quick": _HAND_Q + _WRAP[:4], "thorough": _HAND_T + _WRAP},
+ "C13": {"quick": _HAND_Q + [_WRAP[1], _WRAP[4]], "thorough": _HAND_T + _WRAP},
  "C14": {"quick": _HAND_Q, "thorough": _HAND_T},
  "C15": {"quick": _HAND_Q, "thorough": _HAND_T},
  "C07": {"quick": _LIFE_Q, "thorough": _LIFE_T},
